@@ -183,7 +183,8 @@ theorem exists_isShortest (x : Bits) (hx : isFinite x = true) (zx : isZero x = f
 (the classical bound for binary64, from 10^16 > 2^53). -/
 theorem hasDecimal_17 (x : Bits) (hx : isFinite x = true) (zx : isZero x = false) : HasDecimal x 17 := by
   have hp := posFin_abs x hx zx
-  generalize abs x = y at hp
+  unfold HasDecimal
+  generalize abs x = y at hp ⊢
   have two_ne : (2 : ℚ) ≠ 0 := by norm_num
   have ten_ne : (10 : ℚ) ≠ 0 := by norm_num
   have hv : 0 < val y := val_pos_of_nonzero hp.isZero
@@ -195,7 +196,7 @@ theorem hasDecimal_17 (x : Bits) (hx : isFinite x = true) (zx : isZero x = false
   have e17 : (10 : ℚ) ^ (n + 1) = (10 : ℚ) ^ (n - 16) * 10 ^ 17 := by
     rw [← zpow_natCast (10 : ℚ) 17, ← zpow_add₀ ten_ne]; congr 1; omega
   rw [e16] at hn1; rw [e17] at hn2
-  generalize (10 : ℚ) ^ (n - 16) = T at ht hn1 hn2 e16 e17
+  generalize hT : (10 : ℚ) ^ (n - 16) = T at ht hn1 hn2 e16 e17
   -- w = v / T ∈ [10^16, 10^17), r = round w
   have hw1 : (10 : ℚ) ^ 16 ≤ val y / T := by rw [le_div_iff₀ ht]; linarith
   have hw2 : val y / T < (10 : ℚ) ^ 17 := by rw [div_lt_iff₀ ht]; linarith
@@ -221,7 +222,7 @@ theorem hasDecimal_17 (x : Bits) (hx : isFinite x = true) (zx : isZero x = false
   -- distance of m·T from v
   have hdist : |(m : ℚ) * T - val y| ≤ T / 2 := by
     have e : (m : ℚ) * T - val y = -((val y / T - m) * T) := by field_simp; ring
-    rw [e, abs_neg, abs_mul, abs_of_pos ht]
+    rw [e, _root_.abs_neg, abs_mul, abs_of_pos ht]
     have : |val y / T - (m : ℚ)| ≤ 1 / 2 := abs_le.mpr hr
     have := mul_le_mul_of_nonneg_right this ht.le
     linarith
@@ -243,10 +244,10 @@ theorem hasDecimal_17 (x : Bits) (hx : isFinite x = true) (zx : isZero x = false
       nlinarith
   have hin : InRound y ((m : ℚ) * T) := inRound_of_abs_lt y _ (lt_of_le_of_lt hdist hgap)
   rcases Nat.lt_or_eq_of_le hm2 with hlt | heq
-  · exact ⟨m, n - 16, hlt, by rw [← e16'] at hin; exact hin⟩
+  · exact ⟨m, n - 16, hlt, by rw [hT]; exact hin⟩
   · refine ⟨10 ^ 16, n - 16 + 1, by norm_num, ?_⟩
     have : ((10 ^ 16 : Nat) : ℚ) * (10 : ℚ) ^ (n - 16 + 1) = (m : ℚ) * T := by
-      rw [heq, zpow_add_one₀ ten_ne, ← e16']; push_cast; ring
+      rw [heq, zpow_add_one₀ ten_ne, hT]; push_cast; ring
     rw [this]; exact hin
 
 open Classical in
